@@ -69,6 +69,7 @@ def generate(api):
     except (api.Unsupported, OSError, ValueError, IndexError) as e:
         api.broken('table', 'writer.write_num', PROPS, e)
     generate_escape(api)
+    generate_num_parse(api)
 
 
 def _bytes_lit(t):
@@ -181,3 +182,46 @@ def generate_escape(api):
         api.ok('tables', 'xml_escape', xmlwriter=ver, replace_sites=len(sites))
     except (api.Unsupported, OSError, ValueError, IndexError, KeyError) as e:
         api.broken('table', 'writer.xml_escape', ['C07'], e)
+
+
+# ------------------------------------------------------------------------------------------------
+# Gen/NumParse.v: the steps of `impl FromValue for f32` (svgtree/mod.rs) after `svgtypes::Number::from_str(value).ok()`:
+# the cast to f32 and the finiteness filter, IN SOURCE ORDER (filtering before the cast lets 1e40 through as +inf).
+# ------------------------------------------------------------------------------------------------
+def generate_num_parse(api):
+    rel = 'crates/usvg/src/parser/svgtree/mod.rs'
+    try:
+        src = api.rd(rel)
+        m = re.search(r"impl<[^>]*>\s*FromValue<[^>]*>\s*for\s+f32\s*\{", src)
+        if not m:
+            raise api.Unsupported("impl FromValue for f32 not found")
+        body = _fn(src[m.start():], 'parse')
+        if body is None:
+            raise api.Unsupported("FromValue for f32: fn parse not found")
+        body = re.sub(r"//[^\n]*", "", body)
+        chain = re.sub(r"\s+", "", body)
+        head = "svgtypes::Number::from_str(value).ok()"
+        if not chain.startswith(head):
+            raise api.Unsupported("FromValue for f32: does not start with `svgtypes::Number::from_str(value).ok()`")
+        rest = chain[len(head):]
+        steps = []
+        while rest:
+            mm = re.match(r"\.map\(\|(\w+)\|\1\.0asf32\)", rest)
+            if mm:
+                steps.append('PCast')
+                rest = rest[mm.end():]
+                continue
+            mm = re.match(r"\.filter\(\|(\w+)\|\1(?:\.0)?\.is_finite\(\)\)", rest)
+            if mm:
+                steps.append('PFilterFinite')
+                rest = rest[mm.end():]
+                continue
+            raise api.Unsupported("FromValue for f32: step not understood: %s" % rest[:60])
+        out = [api.HEADER, "From Coq Require Import List.\nImport ListNotations.\n",
+               "(* %s :: impl FromValue for f32, after `svgtypes::Number::from_str(value).ok()` *)" % rel,
+               "Inductive pstep := PCast | PFilterFinite.",
+               "Definition f32_parse_steps : list pstep := [%s].\n" % "; ".join(steps)]
+        api.write_gen('NumParse.v', "\n".join(out))
+        api.ok('tables', 'f32_parse', steps=steps)
+    except (api.Unsupported, OSError, ValueError, IndexError) as e:
+        api.broken('table', 'svgtree.f32_parse', ['C07'], e)
